@@ -228,3 +228,143 @@ Proof.
   split; [exact tx_ex_wf|]. split; [exact tx_ex_all_load|]. split; [reflexivity|]. split; [reflexivity|].
   intros b. destruct b; vm_compute; lia.
 Qed.
+
+(* ------------------------------------------------------------------------------------------------------------ *)
+(* histories under the buffer guard                                                                               *)
+
+Lemma all_load_closed s : all_load s -> closed s.
+Proof.
+  intros H i x Hi. assert (Hl : loads s i) by (apply H; rewrite Hi; discriminate).
+  destruct Hl as [f Hf]. destruct f as [|f]; [discriminate|]. rewrite loadsb_S, Hi in Hf.
+  destruct x as [p refs|]; [|discriminate]. exists p, refs. split; auto.
+  intros r Hr. rewrite forallb_forall in Hf. specialize (Hf r Hr). destruct f as [|f]; [discriminate|].
+  rewrite loadsb_S in Hf. destruct (lookup r s); [discriminate|discriminate].
+Qed.
+
+Definition event_ok_tx (v : variant) (b : backend) (d : disk) (c : cache) (e : event) : Prop :=
+  del_in_scope d (event_op e) /\ guard_C11_tx d c (event_op e) = true /\
+  match e with
+  | EvRaise o k => (k < length (steps_of (plan_of v b d c o)))%nat
+  | _ => True
+  end.
+
+Fixpoint history_ok_tx (v : variant) (b : backend) (d : disk) (c : cache) (l : list event) : Prop :=
+  match l with
+  | [] => True
+  | e :: r => event_ok_tx v b d c e /\ history_ok_tx v b (fst (event_state v b d c e)) (snd (event_state v b d c e)) r
+  end.
+
+Lemma raise_keeps_cache_tx v b d c o k s :
+  safe v b = true -> main d = Some s ->
+  (k < length (steps_of (plan_of v b d c o)))%nat ->
+  forall i, lookup i s <> None -> lookup i (view (run (firstn k (steps_of (plan_of v b d c o))) d)) <> None.
+Proof.
+  intros Hs Hm Hk i Hi. revert Hk. unfold plan_of. rewrite (view_main _ _ Hm).
+  assert (Hnil : (k < length (@nil prim))%nat -> lookup i (view (run (firstn k []) d)) <> None).
+  { cbn. lia. }
+  assert (Htx : forall tx, lookup i (view (run (firstn k (tx_steps v b d tx)) d)) <> None).
+  { intros tx. destruct (tx_crash v b Hs tx d s k Hm) as (j & s' & Hm' & He & _).
+    rewrite (view_main _ _ Hm'), (He i). apply firstn_keeps. exact Hi. }
+  destruct o as [n|n|i0|].
+  - destruct n as [i1 tg p kids|]; [|exact Hnil].
+    destruct (lookup i1 c) as [t|]. { destruct (t =? tg); exact Hnil. }
+    destruct (memb i1 (keys s)); [exact Hnil|].
+    destruct (collect (keys s) c (Node i1 tg p kids) []) as [tx|e]; [|exact Hnil]. intros _. apply Htx.
+  - destruct (collect (keys s) c n []) as [tx|e]; [|exact Hnil]. intros _. apply Htx.
+  - destruct (memb i0 (keys s)); [|exact Hnil]. cbn [steps_of]. intros Hk.
+    unfold view. rewrite (run_nopub _ _ (del_prefix_nopub v b d i0 k Hs Hk)), Hm. exact Hi.
+  - exact Hnil.
+Qed.
+
+(* the cache after a completed operation stays inside the backend *)
+Lemma done_wf_tx v b d c o s' :
+  safe v b = true -> wf d c ->
+  main (run (steps_of (plan_of v b d c o)) d) = Some s' -> closed s' ->
+  wf (fst (event_state v b d c (EvDone o))) (snd (event_state v b d c (EvDone o))).
+Proof.
+  intros Hs Hw Hm' Hc'. pose proof Hw as (s & Hm & Hc & Hcache).
+  cbn [event_state]. revert Hm'. unfold plan_of. rewrite (view_main _ _ Hm).
+  assert (Htx : forall tx, main (run (tx_steps v b d tx) d) = Some s' ->
+                           wf (run (tx_steps v b d tx) d) (cache_update tx c)).
+  { intros tx Hm'. exists s'. split; auto. split; auto. intros i Hi.
+    destruct (tx_crash v b Hs tx d s (length (tx_steps v b d tx)) Hm) as (j & s2 & Hm2 & _ & Hf).
+    rewrite firstn_all in Hm2. rewrite Hm2 in Hm'. injection Hm' as ->. rewrite (Hf (le_n _) i).
+    apply apply_tx_keeps. apply has_cache_update in Hi. destruct Hi as [Hi|Hi]; [left; auto|right].
+    rewrite keys_proj. exact Hi. }
+  destruct o as [n|n|i0|].
+  - destruct n as [i1 tg p kids|]; [|intros _; exact Hw].
+    destruct (lookup i1 c) as [t|]. { destruct (t =? tg); intros _; exact Hw. }
+    destruct (memb i1 (keys s)); [intros _; exact Hw|].
+    destruct (collect (keys s) c (Node i1 tg p kids) []) as [tx|e]; [|intros _; exact Hw]. cbn. apply Htx.
+  - destruct (collect (keys s) c n []) as [tx|e]; [|intros _; exact Hw]. cbn. apply Htx.
+  - destruct (memb i0 (keys s)); [|intros _; exact Hw]. cbn [steps_of fst snd]. intros Hm'.
+    exists s'. split; auto. split; auto. intros j Hj. apply has_adel in Hj. destruct Hj as [Hne Hj].
+    destruct (del_atomic v b d s i0 (length (del_steps v b d i0)) Hs Hm) as (s2 & Hm2 & _ & Hf).
+    rewrite firstn_all in Hm2. rewrite Hm2 in Hm'. injection Hm' as ->. rewrite (Hf (le_n _) j).
+    rewrite lookup_adel. destruct (i0 =? j) eqn:E; [apply N.eqb_eq in E; congruence|auto].
+  - intros _. cbn. eapply wf_nil_cache; eauto.
+Qed.
+
+Lemma main_some d : main d <> None -> exists s, main d = Some s.
+Proof. destruct (main d) as [s|]; [eauto|congruence]. Qed.
+
+Lemma event_invariant_tx v b d c e :
+  safe v b = true -> wf d c -> all_load (view d) -> event_ok_tx v b d c e ->
+  wf (fst (event_state v b d c e)) (snd (event_state v b d c e)) /\
+  all_load (view (fst (event_state v b d c e))).
+Proof.
+  intros Hs Hw Hall (Hsc & Hg & Hk). destruct e as [o|o k|o k]; cbn [event_op] in *.
+  - pose proof (crash_safe_tx v b d c o (length (steps_of (plan_of v b d c o))) Hs Hw Hall Hsc Hg) as H.
+    cbv zeta in H. rewrite firstn_all in H. destruct H as ((Hmn & Hal) & _ & _).
+    destruct (main_some _ Hmn) as (s' & Hm').
+    assert (Hc' : closed s'). { apply all_load_closed. rewrite <- (view_main _ _ Hm'). exact Hal. }
+    split; [eapply done_wf_tx; eauto|].
+    cbn [event_state]. destruct (plan_of v b d c o); cbn in *; auto.
+  - cbn [event_state fst snd]. rewrite after_crash_view.
+    destruct (crash_safe_tx v b d c o k Hs Hw Hall Hsc Hg) as ((Hmn & Hal) & _ & _).
+    split; [|exact Hal]. destruct (main_some _ Hmn) as (s' & Hm').
+    exists s'. split; [rewrite after_crash_main; exact Hm'|]. split.
+    { apply all_load_closed. rewrite <- (view_main _ _ Hm'). exact Hal. }
+    intros i Hi. destruct Hw as (s & Hm & _ & Hcache).
+    pose proof (raise_keeps_cache_tx v b d c o k s Hs Hm Hk i (Hcache i Hi)) as H.
+    rewrite (view_main _ _ Hm') in H. exact H.
+  - cbn [event_state fst snd]. rewrite after_crash_view.
+    destruct (crash_safe_tx v b d c o k Hs Hw Hall Hsc Hg) as ((Hmn & Hal) & _ & _).
+    split; [|exact Hal]. destruct (main_some _ Hmn) as (s' & Hm').
+    exists s'. split; [rewrite after_crash_main; exact Hm'|]. split.
+    { apply all_load_closed. rewrite <- (view_main _ _ Hm'). exact Hal. }
+    intros i H. discriminate.
+Qed.
+
+Theorem history_safe_tx : forall v b l d c,
+  safe v b = true -> wf d c -> all_load (view d) -> history_ok_tx v b d c l ->
+  wf (fst (run_events v b d c l)) (snd (run_events v b d c l)) /\ all_load (view (fst (run_events v b d c l))).
+Proof.
+  intros v b. induction l as [|e r IH]; intros d c Hs Hw Hall Hok; [cbn; auto|].
+  destruct Hok as [He Hr]. destruct (event_invariant_tx v b d c e Hs Hw Hall He) as [Hw' Hall'].
+  cbn [run_events]. apply IH; auto.
+Qed.
+
+(* the old history hypothesis implies the new one *)
+Lemma history_ok_weaker : forall v b l d c,
+  safe v b = true -> wf d c -> all_load (view d) -> history_ok v b d c l -> history_ok_tx v b d c l.
+Proof.
+  intros v b. induction l as [|e r IH]; intros d c Hs Hw Hall Hok; [exact I|].
+  destruct Hok as [He Hr]. pose proof He as (Hsc & Hg & Hk).
+  destruct (event_invariant v b d c e Hs Hw Hall He) as [Hw' Hall'].
+  split; [|apply IH; auto]. split; [|split; [apply guards_imply_tx; auto|exact Hk]].
+  destruct (event_op e); cbn in *; auto.
+Qed.
+
+Definition tx_ex_history : list event :=
+  [EvDone (OOverwrite tx_ex_tmpl); EvRaise (OOverwrite (Node 4 10 10 [Node 6 11 11 []])) 1;
+   EvKill (OStore (Node 8 7 7 [Node 9 8 8 []])) 2].
+
+Lemma tx_history_nonvacuous :
+  forall b, history_ok_tx current b (disk_of tx_ex_store) tx_ex_cache tx_ex_history /\
+            (4 <= length (view (fst (run_events current b (disk_of tx_ex_store) tx_ex_cache tx_ex_history))))%nat.
+Proof.
+  intros b. split.
+  - destruct b; vm_compute; repeat split; auto; lia.
+  - destruct b; vm_compute; lia.
+Qed.
